@@ -248,7 +248,8 @@ func Convert(value any, typ reflect.Type) (any, error) { //nolint: gocyclo
 		case fmt.Stringer:
 			return value.String(), nil
 		default:
-			return fmt.Sprint(value), nil
+			// a container spelled as text shows the values of nested Drops and pointers
+			return fmt.Sprint(DeepToLiquid(value)), nil
 		}
 	}
 	return nil, conversionError("", value, typ)
